@@ -11,3 +11,4 @@ for id in "$@"; do
 done
 git -C /repo checkout -- .
 git -C /repo status --short | head -3
+echo "NOTE: evidence/<ID>.json of the checks just run now describes the SEEDED tree: rerun ./check <ID> on the clean tree before committing"
